@@ -305,6 +305,7 @@ static int pump(void) {
  * the epoll_wait wrap (so libcoap's own waits -- coap_client_delay_first during the CSM exchange -- make progress).  On
  * loopback a send() has queued the bytes at the peer when it returns, so the order of events is a function of the scan order. */
 static int tcp_on;
+#define AF_STREAM(p) ((p) == COAP_PROTO_TCP || (p) == COAP_PROTO_WS)
 static int tcp_sock_ready(coap_socket_t *sock, struct epoll_event *ev, int wait_ms) {
   struct pollfd pf;
   if (sock->fd < 0) return 0;
@@ -326,10 +327,10 @@ static int tcp_ready(coap_context_t *c, struct epoll_event *ev, int wait_ms) {
   coap_endpoint_t *e;
   if (!c) return 0;
   LL_FOREACH(c->endpoint, e) {
-    if (e->proto == COAP_PROTO_TCP && tcp_sock_ready(&e->sock, ev, wait_ms)) return 1;
-    SESSIONS_ITER(e->sessions, s, tmp) if (s->proto == COAP_PROTO_TCP && tcp_sock_ready(&s->sock, ev, wait_ms)) return 1;
+    if (AF_STREAM(e->proto) && tcp_sock_ready(&e->sock, ev, wait_ms)) return 1;
+    SESSIONS_ITER(e->sessions, s, tmp) if (AF_STREAM(s->proto) && tcp_sock_ready(&s->sock, ev, wait_ms)) return 1;
   }
-  SESSIONS_ITER(c->sessions, s, tmp) if (s->proto == COAP_PROTO_TCP && tcp_sock_ready(&s->sock, ev, wait_ms)) return 1;
+  SESSIONS_ITER(c->sessions, s, tmp) if (AF_STREAM(s->proto) && tcp_sock_ready(&s->sock, ev, wait_ms)) return 1;
   return 0;
 }
 /* Nothing is in flight between the two contexts: no connect pending, every byte written has reached the peer's socket
@@ -341,11 +342,11 @@ static int tcp_quiescent(void) {
   coap_endpoint_t *e;
   unsigned nc = 0, ns = 0;
   int v;
-  if (cli) SESSIONS_ITER(cli->sessions, s, tmp) if (s->proto == COAP_PROTO_TCP) {
+  if (cli) SESSIONS_ITER(cli->sessions, s, tmp) if (AF_STREAM(s->proto)) {
     if (s->sock.flags & COAP_SOCKET_WANT_CONNECT) return 0;
     if (s->sock.flags & COAP_SOCKET_CONNECTED) { nc++; v = 0; if (!ioctl(s->sock.fd, SIOCOUTQ, &v) && v > 0) return 0; }
   }
-  if (srv) LL_FOREACH(srv->endpoint, e) SESSIONS_ITER(e->sessions, s, tmp) if (s->proto == COAP_PROTO_TCP) {
+  if (srv) LL_FOREACH(srv->endpoint, e) SESSIONS_ITER(e->sessions, s, tmp) if (AF_STREAM(s->proto)) {
     if (s->sock.flags & COAP_SOCKET_CONNECTED) { ns++; v = 0; if (!ioctl(s->sock.fd, SIOCOUTQ, &v) && v > 0) return 0; }
   }
   return nc == ns;
@@ -1443,18 +1444,27 @@ static void tcp_world_down(void) {
   if (ts2) coap_session_release(ts2);
   ts1 = ts2 = NULL; tep = NULL;
 }
-static void scn_tcp(void) {
+static void scn_stream(coap_proto_t proto) {
   coap_address_t a;
   ts1 = ts2 = NULL; tep = NULL; tcp_put_ok = tcp_put_bad = 0;
   tcp_on = 1;
   if (!world_up(0, 0)) { out_put("setup-fail"); return; }
   if (!add_res("tput", COAP_REQUEST_PUT, hnd_tput, 0, NULL)) { out_put("setup-fail"); return; }
   sim_addr(&a, 0);
-  tep = coap_new_endpoint(srv, &a, COAP_PROTO_TCP);
+  tep = coap_new_endpoint(srv, &a, proto);
   if (!tep) { out_put("tcp-ep-fail"); return; }
   a = tep->bind_addr;
-  ts1 = coap_new_client_session(cli, NULL, &a, COAP_PROTO_TCP);
-  ts2 = coap_new_client_session(cli, NULL, &a, COAP_PROTO_TCP);
+  ts1 = coap_new_client_session(cli, NULL, &a, proto);
+  ts2 = coap_new_client_session(cli, NULL, &a, proto);
+  if (proto == COAP_PROTO_WS) {
+    /* CoAP over WebSockets: the HTTP upgrade (coap_ws_establish, coap_ws_rd_http_header) runs over the real loopback
+     * connection; session->ws, the frame buffer of coap_ws_write and the receive PDU of the WS branch of coap_read_session
+     * are inside the failure window */
+    static const uint8_t host[] = "localhost";
+    coap_str_const_t h = { sizeof(host) - 1, host };
+    if (ts1 && !coap_ws_set_host_request(ts1, &h)) out_put("nohost1");
+    if (ts2 && !coap_ws_set_host_request(ts2, &h)) out_put("nohost2");
+  }
   out_put("sess%d%d", !!ts1, !!ts2);
   settle(30000);
   out_put("est%d%d/%u", ts1 && ts1->state == COAP_SESSION_STATE_ESTABLISHED, ts2 && ts2->state == COAP_SESSION_STATE_ESTABLISHED,
@@ -1476,6 +1486,9 @@ static void scn_tcp(void) {
     out_put("up%d", asked);
   }
 }
+
+static void scn_tcp(void) { scn_stream(COAP_PROTO_TCP); }
+static void scn_ws(void) { scn_stream(COAP_PROTO_WS); }
 
 /* the canary: with memory available a fresh CON GET /r must be answered 2.05 */
 static int canary_once(void) {
@@ -1545,7 +1558,7 @@ static const struct { const char *name; void (*fn)(void); } scns[] = {
   {"setup", scn_setup}, {"osc", scn_osc}, {"h508", scn_h508},
   {"wkc", scn_wkc}, {"b1raw", scn_b1raw}, {"b2raw", scn_b2raw}, {"obsblk", scn_obsblk}, {"cache", scn_cache}, {"async", scn_async},
   {"obsre", scn_obsre}, {"obsfetch", scn_obsfetch}, {"oscobs", scn_oscobs}, {"echo", scn_echo}, {"xtok", scn_xtok},
-  {"dly", scn_dly}, {"tcp", scn_tcp},
+  {"dly", scn_dly}, {"tcp", scn_tcp}, {"ws", scn_ws},
 };
 
 static void on_alarm(int sig) {
